@@ -94,6 +94,10 @@ def run(ck):
     with ck.section('R14.1c'):
         from rules.shared import simtask_implies_error_recorded
         simtask_implies_error_recorded(ck, R1)
+        # "returns the handler's result": also through the add-on wrappers of event() that sit between
+        # ExtEvent.send and the handler (persistent blocks)
+        from rules.shared import event_result_passed_on
+        event_result_passed_on(ck, R1, 'fsm:FSM')
 
     with ck.section('R14.1'):
         # ------------------------------------------------------------------ R14.1
